@@ -353,6 +353,10 @@ def perturb_frame(df, perturb, tag=""):
     return df
 
 
+def _nonempty(x):
+    return len(x) > 0
+
+
 def mk_algo(bt, d, tickers, dates, data, perturb=None):
     import random as _random
     a = bt.algos
@@ -407,6 +411,9 @@ def mk_algo(bt, d, tickers, dates, data, perturb=None):
         keep = [i for i in range(len(idx)) if r.random() < 0.6 or i == 0]
         return a.WeighTarget(perturb_frame(w.iloc[keep], perturb, "wt%d" % d[1]))
     if n == "SelectWhere":
+        # d = [name, seed, opts?]; opts (whole-run-x): {"keep": share of the rows kept (the first always), "nan": share of NaN cells,
+        # "nd": include_no_data, "neg": include_negative}
+        opts = d[2] if len(d) > 2 and isinstance(d[2], dict) else {}
         r = _random.Random(d[1])
         idx = pd.DatetimeIndex(dates)
         sig = pd.DataFrame({t: [r.random() < 0.6 for _ in idx] for t in tickers}, index=idx)
@@ -416,17 +423,49 @@ def mk_algo(bt, d, tickers, dates, data, perturb=None):
                 if i > cut:
                     for t in tickers:
                         sig.at[i, t] = not sig.at[i, t] if perturb["mode"] != "nan" else False
-        return a.SelectWhere(sig)
+        if opts.get("nan"):
+            sig = sig.astype(object)
+            for i in range(len(idx)):
+                for j in range(len(tickers)):
+                    if r.random() < opts["nan"]:
+                        sig.iat[i, j] = np.nan
+        if opts.get("keep", 1.0) < 1.0:
+            sig = sig.iloc[[i for i in range(len(idx)) if i == 0 or r.random() < opts["keep"]]]
+        return a.SelectWhere(sig, include_no_data=bool(opts.get("nd", False)), include_negative=bool(opts.get("neg", False)))
     if n == "SetStatSelectN":
+        # d = [name, seed, n, lag days, sort_descending, opts?]; opts (whole-run-x): {"distinct": no two equal values in a row (the order
+        # pandas gives to ties is not modelled), "nan": share of NaN cells, "aon": all_or_none, "fs": filter_selected}
+        opts = d[5] if len(d) > 5 and isinstance(d[5], dict) else {}
         r = _random.Random(d[1])
         idx = pd.DatetimeIndex(dates)
-        stat = pd.DataFrame({t: [float(r.randint(0, 20)) for _ in idx] for t in tickers}, index=idx)
+        if opts.get("distinct"):
+            vals = [r.sample(range(0, 8 * len(tickers) + 8), len(tickers)) for _ in idx]
+            stat = pd.DataFrame({t: [float(v[j]) * 0.25 - 3.0 for v in vals] for j, t in enumerate(tickers)}, index=idx)
+        else:
+            stat = pd.DataFrame({t: [float(r.randint(0, 20)) for _ in idx] for t in tickers}, index=idx)
+        if opts.get("nan"):
+            for i in range(len(idx)):
+                for j in range(len(tickers)):
+                    if r.random() < opts["nan"]:
+                        stat.iat[i, j] = np.nan
         # a statistic is often published less often than prices: keep a subset of the rows (the first always)
         if r.random() < 0.6:
             keep = [i for i in range(len(idx)) if i == 0 or r.random() < 0.5]
             stat = stat.iloc[keep]
         stat = perturb_frame(stat, perturb, "stat%d" % d[1])
-        return bt.core.AlgoStack(a.SetStat(stat, lag=pd.DateOffset(days=d[3])), a.SelectN(d[2], sort_descending=d[4]))
+        return bt.core.AlgoStack(a.SetStat(stat, lag=pd.DateOffset(days=d[3])),
+                                 a.SelectN(d[2], sort_descending=d[4], all_or_none=bool(opts.get("aon", False)),
+                                           filter_selected=bool(opts.get("fs", False))))
+    if n == "CloseDead":
+        return a.CloseDead()
+    if n == "Require":
+        # the predicate used in practice: something is selected
+        return a.Require(_nonempty, "selected", bool(d[1]))
+    if n == "SelectRegex":
+        return a.SelectRegex(d[1])
+    if n == "SelectTypes":
+        return a.SelectTypes(include_types=tuple(getattr(bt.core, x) for x in d[1]),
+                             exclude_types=tuple(getattr(bt.core, x) for x in d[2]))
     if n == "SelectActive":
         return a.SelectActive()
     if n == "LimitWeights":
